@@ -45,6 +45,8 @@ pub struct ScriptedReader<'a> {
     pub log_calls: bool,
     pub ncalls: u64,
     pub interrupts: u64,
+    /// scripted hard (non-EINTR) errors returned so far
+    pub failures: u64,
 }
 
 impl<'a> ScriptedReader<'a> {
@@ -59,6 +61,7 @@ impl<'a> ScriptedReader<'a> {
             log_calls: true,
             ncalls: 0,
             interrupts: 0,
+            failures: 0,
         }
     }
 
@@ -113,7 +116,10 @@ impl Read for ScriptedReader<'_> {
                 )
             }
             Step::Eof => (Ok(0), Call::Eof),
-            Step::Fail(kind) => (Err(std::io::Error::new(kind, "scripted failure")), Call::Failed(kind)),
+            Step::Fail(kind) => {
+                self.failures += 1;
+                (Err(std::io::Error::new(kind, "scripted failure")), Call::Failed(kind))
+            }
         };
         if self.log_calls {
             self.calls.push((offered, call));
